@@ -81,6 +81,8 @@ def _match_field(want, got):
         return isinstance(got, str) and re.search(want["re"], got) is not None
     if isinstance(want, dict) and "in" in want:
         return got in want["in"]
+    if isinstance(want, dict) and "contains" in want:
+        return isinstance(got, (list, tuple, str)) and want["contains"] in got
     return want == got
 
 
@@ -249,8 +251,13 @@ def validate_trace(ctx, area, module, trace_path, cfg=None, env=None, timeout=90
 def split_executions(trace_path):
     """Split an ndjson log at Reset events -> list of (exec id, [lines])."""
     execs, cur, cid = [], [], None
-    for ln in open(trace_path):
+    for ln in open(trace_path, errors="replace"):
         if not ln.strip():
+            continue
+        if '"e":"Aborted"' in ln:
+            cur, cid = [], None          # the process died in this execution: not a complete trace
+            continue
+        if not ln.endswith("\n") or not ln.startswith("{"):
             continue
         if '"e":"Reset"' in ln:
             if cur:
@@ -389,10 +396,10 @@ def build(ctx, name, srcs, lib=("inplace_stop_token.cpp", "async_stack.cpp", "ex
     if san:
         flags += ["-fsanitize=" + san, "-fno-sanitize-recover=undefined"]
     flags += ["-D" + d for d in defs] + list(extra)
-    th = tree_hash([os.path.join(repo, "include"), os.path.join(repo, "source"), os.path.join(VERIF, "rt")])
+    th = tree_hash([os.path.join(repo, "include"), os.path.join(repo, "source"), os.path.join(VERIF, "rt")] + list(incs))
     h = hashlib.sha1(("|".join([cxx] + flags + list(libs)) + th).encode())
     for s in srcs:
-        h.update(s.encode()); h.update(open(s, "rb").read())
+        h.update(os.path.basename(s).encode()); h.update(open(s, "rb").read())
     for l in lib:
         h.update(l.encode())
     key = h.hexdigest()[:20]
@@ -501,7 +508,7 @@ def classify_death(rc, stderr):
     return ev
 
 
-def run_batches(ctx, exe, args, total, log_path, timeout=900, per_exec_timeout=None, env=None, max_deaths=25):
+def run_batches(ctx, exe, args, total, log_path, timeout=900, per_exec_timeout=None, env=None, max_deaths=300):
     """Run executions [0,total) of a driver that accepts `--from K --to N --log FILE` (appending) and prints
     a final JSON summary line on stdout.  If the process dies in execution x (found from the last Reset line of
     the log) the death is recorded and the run resumes at x+1.
@@ -531,7 +538,8 @@ def run_batches(ctx, exe, args, total, log_path, timeout=900, per_exec_timeout=N
             x = k
         d["x"] = x
         deaths.append(d)
-        truncate_after_last_reset(log_path)
+        with open(log_path, "a") as f:       # mark the incomplete execution; split_executions() drops it
+            f.write('\n{"e":"Aborted","x":%d}\n' % x)
         if len(deaths) >= max_deaths:
             ctx.rep.note("stopped after %d deaths" % len(deaths))
             break
